@@ -449,7 +449,17 @@ func main() {
 	fixture := flag.String("fixture", "", "path of testdata/update_headers.json: adds the main-net case with the real ethash check")
 	out := flag.String("out", "", "output JSONL")
 	in := flag.String("in", "", "replay the specs of this JSONL file instead of generating")
+	calc := flag.Int("calc", 0, "number of random (parent, time, gas limit) triples for the function-level differential")
+	calcOut := flag.String("calcout", "", "output JSONL of the function-level differential (calc.go)")
+	calcFixture := flag.String("calcfixture", "", "path of testdata/update_headers.json: consecutive main-net headers as (parent, child) pairs")
+	calcIn := flag.String("calcin", "", "replay the function-level cases of this JSONL file")
 	flag.Parse()
+	if *calcOut != "" {
+		runCalc(hlib.NewRand(*seed), *calc, *calcFixture, *calcIn, *calcOut)
+		if *calcIn != "" {
+			return
+		}
+	}
 	if *out == "" {
 		fmt.Fprintln(os.Stderr, "need -out")
 		os.Exit(2)
